@@ -213,6 +213,34 @@ func cmdCheck(args []string) int {
 		fmt.Printf("VIOLATION property=%s replay=%s no-failing-input-found\n", id, rp)
 		return 1
 	}
+	// a function that carries a clause labelled for this property but is no unit of its scope would have
+	// that clause assumed by its callers and proved by nobody: refuse to run
+	inScope := map[string]bool{}
+	for _, su := range scope {
+		inScope[su.Func] = true
+	}
+	for name, c := range x.contracts {
+		parent := name
+		if i := strings.Index(name, "$"); i >= 0 {
+			parent = name[:i]
+		}
+		if inScope[name] || inScope[parent] {
+			continue
+		}
+		var cls []*Clause
+		cls = append(cls, c.Ensures...)
+		for _, l := range c.Loops {
+			cls = append(cls, l...)
+		}
+		for _, cl := range cls {
+			for _, pr := range cl.Props {
+				if pr == id {
+					fmt.Printf("BROKEN scope: %s has a clause [%s] but is not a unit of props/%s.scope\n", name, cl.Label, id)
+					return 2
+				}
+			}
+		}
+	}
 	// generate
 	type unitInfo struct {
 		su    scopeUnit
